@@ -5031,7 +5031,9 @@ class PyCdlib:
         # the same thing, we can't actually add a hard link.
 
         old_rec = dr.DirectoryRecord()  # type: Union[dr.DirectoryRecord, udfmod.UDFFileEntry]
-        fmode = 0
+        # The Rock Ridge mode of the new name: that of the old name if it has
+        # one, else that of a file added without a mode (a regular file).
+        fmode = 0o0100444
         if iso_old_path is not None:
             # A link from a file on the ISO9660 filesystem...
             old_rec = self._find_iso_record(iso_old_path)
